@@ -188,6 +188,15 @@ func VerifC05UnlockedOperations() {
 	if first {
 		rt.Assert(a.safelyCheckPassword(right) == nil, "passphrase-check-accepts-the-right-passphrase")
 	}
+	// optionally a refused attempt in between (a wrong passphrase given to export / removal / the API's check):
+	// it is refused and alters nothing the later operations need
+	if rt.NondetBool() {
+		wrong := rt.NondetBytes(rt.NondetLen(0, 3))
+		hw := sha512.Sum512(append(append([]byte(nil), a.privPassphraseSalt[:]...), wrong...))
+		rt.Assume(!bytes.Equal(wrong, right) && hw != a.hashedPrivPassphrase) // SHA-512 does not collide on the two salted inputs
+		rt.Assert(a.safelyCheckPassword(wrong) == ErrInvalidPassphrase, "wrong-passphrase-refused-while-unlocked")
+		rt.Reach("refused-in-between")
+	}
 	var got string
 	verr := mwdb.View(db, func(rtx mwdb.ReadTransaction) (e error) {
 		got, _, e = a.getMnemonic(rtx, right)
